@@ -345,6 +345,16 @@ def propKids : List (Str × PropVal) → List (Str × List Item)
   | (_, .s _) :: t => propKids t
   | (k, .l l) :: t => (k, l) :: propKids t
 
+/-- the loop `for v in obj.get("set", {}).values(): if isinstance(v, Promise | _ObjectFinder): _resolve(…)`
+of the create branch: the first failure (unresolvable promise, or an ordinary exception), if any -/
+def checkSetScalars (ps : Promises) (g : Graph) : List (Str × SetVal) → Option Sig
+  | [] => none
+  | (_, .scalar v) :: t =>
+    match resolveVal ps g v with
+    | .error e => some e
+    | .ok _ => checkSetScalars ps g t
+  | (_, .list _) :: t => checkSetScalars ps g t
+
 /-- one entry of the inner loop of `_operate_sync` -/
 def stepSync (s : State) (par : Id) (attr : Str) : SyncObj → Except Err State
   | .mk nid nid2 ty keys pid set ext sync =>
@@ -358,6 +368,12 @@ def stepSync (s : State) (par : Id) (attr : Str) : SyncObj → Except Err State
         ext.map (fun kl => Work.items c kl.1 kl.2) ++
         (match pid with | none => [] | some p => [Work.fulfil p c]) ++ s.agenda) }
     | .ok (none, _) =>
+      -- create branch; an unresolved promise among the scalar `set` values defers the whole entry
+      match checkSetScalars s.ps s.g set with
+      | some (.unres p) =>
+        .ok (s.defer p (.piece par (.sync attr (.mk nid nid2 ty keys pid set ext sync))))
+      | some (.err e) => .error e
+      | none =>
       let props := propsOf keys set ext
       let item := Item.obj nid pid ty (propScal props) (propKids props)
       .ok { s with agenda :=
